@@ -82,4 +82,44 @@ theorem loop_ips : ∀ (rrs : List RR) (prio : Nat) (e : Option Ep) (out res : L
         | none => simp [allIps, hi, List.flatMap_append]
         | some e0 => simp [allIps, hi, List.flatMap_append, List.append_assoc]
 
+/-- how many times the priority value rises from one record to the next -/
+def rises : List Nat → Nat
+  | a :: b :: rest => (if a < b then 1 else 0) + rises (b :: rest)
+  | _ => 0
+
+theorem loop_some_count : ∀ (rrs : List RR) (prio : Nat) (e : Ep) (out res : List Ep),
+    loop rrs prio (some e) out = some res →
+    res.length = out.length + 1 + rises (prio :: rrs.map (·.prio)) := by
+  intro rrs
+  induction rrs with
+  | nil => intro prio e out res h; simp [loop] at h; subst h; simp [rises]
+  | cons rr rest ih =>
+    intro prio e out res h
+    simp only [loop] at h
+    by_cases hc : prio < rr.prio
+    · have hcc : (prio < rr.prio ∧ (some e).isSome = true) := ⟨hc, rfl⟩
+      simp only [hcc, and_self, if_true] at h
+      have hg : (Option.getD (none : Option Ep) {}) = ({} : Ep) := rfl
+      rw [hg] at h
+      cases ha : applyParams ({} : Ep) rr.params with
+      | none => simp [ha] at h
+      | some e' =>
+        simp only [ha] at h
+        have := ih rr.prio e' (out ++ (some e).toList) res h
+        rw [this]
+        simp [rises, hc]
+        omega
+    · have hcc : ¬ (prio < rr.prio ∧ (some e).isSome = true) := fun x => hc x.1
+      simp only [hcc, if_false] at h
+      have hg2 : (some e).getD ({} : Ep) = e := rfl
+      rw [hg2] at h
+      cases ha : applyParams e rr.params with
+      | none => rw [ha] at h; simp at h
+      | some e' =>
+        rw [ha] at h
+        have := ih rr.prio e' out res h
+        rw [this]
+        simp [rises, hc]
+
+
 end NV.SvcProvL
